@@ -377,6 +377,189 @@ func lockDominates(fn *ssa.Function, blk *ssa.BasicBlock, at ssa.Instruction, ro
 	return false
 }
 
+// globalFrame: companion of the receiver-frame rule for package-level state. The handler, the closures it
+// makes and the module functions it calls (six levels; calls through function values: the same-package functions of that signature) contain no store, map update or delete whose
+// target is reached from a package-level variable of the module.
+func (L *Loader) globalFrame(fn *ssa.Function, accessors map[string]string) (obls []*Obligation) {
+	short := L.funcKeyShort(fn)
+	seen := map[*ssa.Function]bool{}
+	bad := 0
+	globalRoot := func(a ssa.Value) *ssa.Global {
+		for i := 0; i < 16; i++ {
+			switch x := a.(type) {
+			case *ssa.FieldAddr:
+				a = x.X
+			case *ssa.IndexAddr:
+				a = x.X
+			case *ssa.UnOp:
+				if x.Op != token.MUL {
+					return nil
+				}
+				a = x.X
+			case *ssa.Global:
+				if x.Pkg != nil && strings.HasPrefix(x.Pkg.Pkg.Path(), modulePath) {
+					return x
+				}
+				return nil
+			default:
+				return nil
+			}
+		}
+		return nil
+	}
+	report := func(in ssa.Instruction, g *ssa.Global, what, via string) {
+		bad++
+		pos := L.fset.Position(in.Pos())
+		obls = append(obls, &Obligation{ID: fmt.Sprintf("%s/global-frame/store#%d", short, bad), Kind: "confine", Func: short,
+			Pos:  fmt.Sprintf("%s:%d", strings.TrimPrefix(pos.Filename, L.repoDir+"/"), pos.Line),
+			Desc: what + " package-level variable " + g.Name() + via + ": state shared by all connections is written while a connection is served", Prefix: 1, Goal: "false", Script: []string{"(set-logic ALL)"}})
+	}
+	var visit func(f *ssa.Function, depth int, via string)
+	visit = func(f *ssa.Function, depth int, via string) {
+		if f == nil || seen[f] || depth > 6 || len(f.Blocks) == 0 {
+			return
+		}
+		seen[f] = true
+		for _, b := range f.Blocks {
+			for _, in := range b.Instrs {
+				switch x := in.(type) {
+				case *ssa.Store:
+					if g := globalRoot(x.Addr); g != nil {
+						report(in, g, "store to", via)
+					}
+				case *ssa.MapUpdate:
+					if g := globalRoot(x.Map); g != nil {
+						report(in, g, "update of a map held by", via)
+					}
+				case *ssa.Send:
+					if g := globalRoot(x.Chan); g != nil {
+						report(in, g, "send on a channel held by", via)
+					}
+				case *ssa.Select:
+					for _, st := range x.States {
+						if st.Dir == types.SendOnly {
+							if g := globalRoot(st.Chan); g != nil {
+								report(in, g, "send on a channel held by", via)
+							}
+						}
+					}
+				case *ssa.MakeClosure:
+					if cl, ok := x.Fn.(*ssa.Function); ok {
+						visit(cl, depth, via)
+					}
+				case ssa.CallInstruction:
+					cc := x.Common()
+					if bi, ok := cc.Value.(*ssa.Builtin); ok && bi.Name() == "delete" && len(cc.Args) > 0 {
+						if g := globalRoot(cc.Args[0]); g != nil {
+							report(in, g, "delete from a map held by", via)
+						}
+					}
+					if c, what, ok := mutatingContainerCall(cc); ok {
+						if g, isG := addrRoot(c).(*ssa.Global); isG && g.Pkg != nil && strings.HasPrefix(g.Pkg.Pkg.Path(), modulePath) {
+							report(in, g, what+" on", via)
+						} else if g := globalRoot(c); g != nil {
+							report(in, g, what+" on a container held by", via)
+						}
+					}
+					if cc.StaticCallee() == nil && !cc.IsInvoke() {
+						if _, isBuiltin := cc.Value.(*ssa.Builtin); !isBuiltin {
+							// a call through a function value: the functions of this package with that signature
+							for _, cand := range L.sameSignature(cc) {
+								if pkgOf(cand) == pkgOf(f) {
+									visit(cand, depth+1, " (in "+L.funcKeyShort(cand)+", a possible callee of a function value)")
+								}
+							}
+						}
+						continue
+					}
+					callee := cc.StaticCallee()
+					if callee == nil || callee.Pkg == nil || !strings.HasPrefix(callee.Pkg.Pkg.Path(), modulePath) {
+						continue
+					}
+					if _, acc := accessors[L.funcKeyShort(callee)]; acc {
+						continue
+					}
+					visit(callee, depth+1, " (in "+L.funcKeyShort(callee)+")")
+				}
+			}
+		}
+	}
+	visit(fn, 0, "")
+	if bad == 0 {
+		obls = append(obls, &Obligation{ID: short + "/global-frame/no-store#1", Kind: "confine", Func: short, Pos: L.posOfFn(fn),
+			Desc: "no package-level variable of the module is written by this function, its closures or the module functions it calls", Prefix: 1, Goal: "true", Script: []string{"(set-logic ALL)"}})
+	}
+	return
+}
+
+// mutatingContainerCall: a call of a method of one of the standard mutable containers (sync.Pool, sync.Map,
+// bytes.Buffer, strings.Builder, container/list.List) that can change it; the container is the first argument.
+func mutatingContainerCall(cc *ssa.CallCommon) (ssa.Value, string, bool) {
+	callee := cc.StaticCallee()
+	if callee == nil || callee.Signature.Recv() == nil || len(cc.Args) == 0 {
+		return nil, "", false
+	}
+	rt := callee.Signature.Recv().Type()
+	if pt, ok := rt.(*types.Pointer); ok {
+		rt = pt.Elem()
+	}
+	switch rt.String() {
+	case "sync.Pool", "sync.Map", "bytes.Buffer", "strings.Builder", "container/list.List":
+	default:
+		return nil, "", false
+	}
+	switch callee.Name() {
+	case "Load", "Range", "Len", "String", "Bytes", "Cap", "Front", "Back", "Available":
+		return nil, "", false // readers
+	}
+	return cc.Args[0], rt.String() + "." + callee.Name(), true
+}
+
+// addrRoot strips field selection and indexing from an address (no loads): &g.f[i] -> g
+func addrRoot(a ssa.Value) ssa.Value {
+	for i := 0; i < 16; i++ {
+		switch x := a.(type) {
+		case *ssa.FieldAddr:
+			a = x.X
+		case *ssa.IndexAddr:
+			a = x.X
+		default:
+			return a
+		}
+	}
+	return a
+}
+
+// sameSignature: the module functions whose parameters (receiver first) and results have the types of this call.
+func (L *Loader) sameSignature(cc *ssa.CallCommon) []*ssa.Function {
+	sig := cc.Signature()
+	var out []*ssa.Function
+	for fn := range L.allFuncs {
+		if p := pkgOf(fn); p == nil || !strings.HasPrefix(p.Pkg.Path(), modulePath) || len(fn.Blocks) == 0 || fn.Synthetic != "" {
+			continue
+		}
+		if len(fn.Params) != sig.Params().Len() || fn.Signature.Results().Len() != sig.Results().Len() || len(fn.FreeVars) > 0 {
+			continue
+		}
+		same := true
+		for i, p := range fn.Params {
+			if !types.Identical(p.Type(), sig.Params().At(i).Type()) {
+				same = false
+			}
+		}
+		for i := 0; same && i < sig.Results().Len(); i++ {
+			if !types.Identical(fn.Signature.Results().At(i).Type(), sig.Results().At(i).Type()) {
+				same = false
+			}
+		}
+		if same {
+			out = append(out, fn)
+		}
+	}
+	sort.Slice(out, func(i, j int) bool { return L.funcKey(out[i]) < L.funcKey(out[j]) })
+	return out
+}
+
 func (L *Loader) posOfFn(fn *ssa.Function) string {
 	pos := L.fset.Position(fn.Pos())
 	return fmt.Sprintf("%s:%d", strings.TrimPrefix(pos.Filename, L.repoDir+"/"), pos.Line)
@@ -488,7 +671,47 @@ func (L *Loader) receiverFrame(fn *ssa.Function, accessors map[string]string) (o
 							Pos:  fmt.Sprintf("%s:%d", strings.TrimPrefix(pos.Filename, L.repoDir+"/"), pos.Line),
 							Desc: "an entry of a map held by the shared receiver is deleted" + via, Prefix: 1, Goal: "false", Script: []string{"(set-logic ALL)"}})
 					}
+					if bi, ok := cc.Value.(*ssa.Builtin); ok && bi.Name() == "append" && len(cc.Args) > 0 && rooted(cc.Args[0], recv) {
+						// append to a slice held by the receiver may write into its backing array (spare capacity)
+						n++
+						bad++
+						pos := L.fset.Position(x.Pos())
+						obls = append(obls, &Obligation{ID: fmt.Sprintf("%s/receiver-frame/store#%d", short, bad), Kind: "confine", Func: short,
+							Pos:  fmt.Sprintf("%s:%d", strings.TrimPrefix(pos.Filename, L.repoDir+"/"), pos.Line),
+							Desc: "append to a slice held by the shared receiver" + via + ": with spare capacity the elements are written into the backing array that all connections share", Prefix: 1, Goal: "false", Script: []string{"(set-logic ALL)"}})
+					}
+					if c, what, ok := mutatingContainerCall(cc); ok && rooted(c, recv) {
+						n++
+						bad++
+						pos := L.fset.Position(x.Pos())
+						obls = append(obls, &Obligation{ID: fmt.Sprintf("%s/receiver-frame/store#%d", short, bad), Kind: "confine", Func: short,
+							Pos:  fmt.Sprintf("%s:%d", strings.TrimPrefix(pos.Filename, L.repoDir+"/"), pos.Line),
+							Desc: what + " on a container held by the shared receiver" + via, Prefix: 1, Goal: "false", Script: []string{"(set-logic ALL)"}})
+					}
+					isRecv := func(a ssa.Value) bool {
+						if u, ok := a.(*ssa.UnOp); ok && myCell != nil && u.X == myCell {
+							return true // the receiver read back from its cell
+						}
+						return a == recv
+					}
 					callee := cc.StaticCallee()
+					if callee == nil && !cc.IsInvoke() {
+						// a call through a function value that is handed the receiver: every module function of that
+						// signature may be the callee (command tables are built from method expressions)
+						if _, isBuiltin := cc.Value.(*ssa.Builtin); !isBuiltin {
+							for i, a := range cc.Args {
+								if !isRecv(a) {
+									continue
+								}
+								for _, cand := range L.sameSignature(cc) {
+									if _, acc := accessors[L.funcKeyShort(cand)]; !acc {
+										visit(cand, cand.Params[i], depth+1, " (in "+L.funcKeyShort(cand)+", a possible callee of a function value)")
+									}
+								}
+							}
+						}
+						continue
+					}
 					if callee == nil || callee.Pkg == nil || !strings.HasPrefix(callee.Pkg.Pkg.Path(), modulePath) {
 						continue
 					}
@@ -496,10 +719,7 @@ func (L *Loader) receiverFrame(fn *ssa.Function, accessors map[string]string) (o
 						continue
 					}
 					for i, a := range cc.Args {
-						if u, ok := a.(*ssa.UnOp); ok && myCell != nil && u.X == myCell {
-							a = recv // the receiver read back from its cell
-						}
-						if a == recv && i < len(callee.Params) {
+						if isRecv(a) && i < len(callee.Params) {
 							visit(callee, callee.Params[i], depth+1, " (in "+L.funcKeyShort(callee)+")")
 						}
 					}
